@@ -1,7 +1,8 @@
 import GceTcb.Base.Line
 import GceTcb.Model.KeyHistory
+import GceTcb.Model.KeyHistoryKms
 /-
-Driver handler for stream `c12` (key-management histories).
+Driver handler for streams `c12` (key-management histories) and `c12kms` (the same on the Cloud KMS manager).
 
   c12 op=hist ca=memca|gcsca km=memkm|localkm seq=0|1 cli=0|1 cmds=<cmd>;<cmd>;…
       cmd = b:<ow><kg>:<rootCn>:<signCn>:<rootSerial>:<signSerial>:<now>
@@ -13,6 +14,15 @@ Driver handler for stream `c12` (key-management histories).
              self/vr/ir/km   (self: verifies under its own key; vr: verifies under the served root's key;
              ir: issuer name = served root's subject; km: the live key of that name is the subject key 1/0, x = not live)
   c12 op=bump s=<name>  → memkm.BumpName(name)
+  c12 op=khist ring=<key ring resource name> rk=<root cryptoKey id> sk=<signing cryptoKey id> cmds=<cmd>;…
+      cmd = b:<ow><kg>:<rootCn>:<signCn>:<rootSerial>:<signSerial>:<now>:<gen>:<deadline>:<wr><ws>
+          | r:<ow><kg>:<cn>:<serial override, 0 = none>:<now>:<gen>:<deadline>
+          | w:<ow><kg>:<ca><keys>
+          | x:settle | x:disable:<cryptoKey id>:<version> | x:expire
+      (gen, deadline: the Cloud KMS environment of the command; wr / ws: whether the object named after the
+       root / signing certificate of a FAILED bootstrap changed — they select the order in which gcsca.Finalize
+       visited its Go map of certificates when the two orders differ)
+    → ok=… pr=… ps=… root=… ents=… live=<names that can sign> vers=<id>:<n><E|P<gen>|D|S|X>,…;<id>:…
 -/
 namespace GceTcb.Drive.C12
 open GceTcb GceTcb.KeyHistory
@@ -70,8 +80,98 @@ def runObs (cfg : Cfg) : State → Bool → List Cmd → State × Bool
   | s, ok, [] => (s, ok)
   | s, _, c :: rest => runObs cfg (step cfg s c).1 (step cfg s c).2 rest
 
+/-! ### Cloud KMS manager -/
+
+open GceTcb.KeyHistory.KmsH in
+def kname (ring : String) (n : KName) : String :=
+  if n == noName then "-" else GceTcb.CA.verName (ring ++ "/cryptoKeys/" ++ n.base) n.idx
+
+open GceTcb.KeyHistory.KmsH in
+def parseKCmd (s : String) : Option (KCmd × Bool × Bool) :=
+  match s.splitOn ":" with
+  | ["b", fl, rcn, scn, rs, ss, now, gen, dl, w] =>
+    match w.toList with
+    | [wr, ws] =>
+      some (.bootstrap (parseFlags fl) ⟨rcn, scn, rs.toNat?.getD 0, ss.toNat?.getD 0, now.toNat?.getD 0⟩
+        ⟨gen.toNat?.getD 0, dl == "1"⟩ false, wr == '1', ws == '1')
+    | _ => none
+  | ["r", fl, cn, ser, now, gen, dl] =>
+    let n := ser.toNat?.getD 0
+    some (.rotate (parseFlags fl) ⟨cn, if n = 0 then none else some n, now.toNat?.getD 0⟩ ⟨gen.toNat?.getD 0, dl == "1"⟩,
+      false, false)
+  | ["w", fl, ck] =>
+    match ck.toList with
+    | [c, k] => some (.wipeout (parseFlags fl) (c == '1') (k == '1'), false, false)
+    | _ => none
+  | ["x", "settle"] => some (.ext .settle, false, false)
+  | ["x", "expire"] => some (.ext .expire, false, false)
+  | ["x", "disable", k, i] => some (.ext (.disable ⟨k, i.toNat?.getD 0⟩), false, false)
+  | _ => none
+
+open GceTcb.KeyHistory.KmsH in
+/-- One command; for a bootstrap the visiting order of Finalize's certificate map is the one that agrees with
+    the observed object changes (root first when both or neither do). -/
+def kStepObs (cfg : KCfg) (s : KState) (c : KCmd) (wr ws : Bool) : KState × Bool :=
+  match c with
+  | .bootstrap f a e _ =>
+    let r0 := kBootstrap cfg f a e false s
+    if r0.2 then r0
+    else
+      let pr := ObjKey.byCert a.rootCn a.rootSerial
+      let ps := ObjKey.byCert a.signCn a.signSerial
+      let wr0 := get r0.1.ca.objects pr != get s.ca.objects pr
+      let ws0 := get r0.1.ca.objects ps != get s.ca.objects ps
+      if wr0 == wr && ws0 == ws then r0 else kBootstrap cfg f a e true s
+  | c => kStep cfg s c
+
+open GceTcb.KeyHistory.KmsH in
+def kRunObs (cfg : KCfg) : KState → Bool → List (KCmd × Bool × Bool) → KState × Bool
+  | s, ok, [] => (s, ok)
+  | s, _, (c, wr, ws) :: rest => kRunObs cfg (kStepObs cfg s c wr ws).1 (kStepObs cfg s c wr ws).2 rest
+
+open GceTcb.KeyHistory.KmsH in
+def showCertK (_ring : String) (s : KState) (n : KName) (c : Cert) : String :=
+  let self := c.signerKey == c.subjectKey
+  let (vr, ir) := match bundle caCfg s.ca with
+    | some r => (c.signerKey == r.subjectKey, c.issuerCn == r.cn && c.issuerSerial == r.subjSerial)
+    | none => (false, false)
+  let km := match s.svc.signer? n with
+    | some k => b01 (k == c.subjectKey)
+    | none => "x"
+  "/".intercalate [toString c.certSerial, toString c.subjSerial, c.cn, c.issuerCn, toString c.issuerSerial,
+    b01 c.isCA, toString c.keyUsage, toString c.sigAlg, toString c.notBefore, toString c.notAfter,
+    b01 self, b01 vr, b01 ir, km]
+
+open GceTcb.KeyHistory.KmsH in
+def stLetter : VSt → String
+  | .pending g => s!"P{g}"
+  | .enabled => "E"
+  | .disabled => "D"
+  | .scheduled => "S"
+  | .destroyed => "X"
+
+open GceTcb.KeyHistory.KmsH in
+def observeK (ring : String) (s : KState) (ok : Bool) : String :=
+  let root := match bundle caCfg s.ca with
+    | some r => showCertK ring s s.ca.primaryRoot r
+    | none => "-"
+  let ents := sortStrings (s.ca.entries.map fun (n, p) =>
+    kname ring n ++ "@" ++ (match get s.ca.objects p with | some c => showCertK ring s n c | none => "-"))
+  let live := sortStrings (s.svc.live.map (kname ring))
+  let vers := s.svc.keys.map fun k =>
+    k ++ ":" ++ ",".intercalate ((List.range (s.svc.count k)).map fun i => s!"{i + 1}{stLetter (s.svc.ver ⟨k, i + 1⟩).st}")
+  s!"ok={b01 ok} pr={kname ring s.ca.primaryRoot} ps={kname ring s.ca.primarySigning} root={root} ents={",".intercalate ents} live={",".intercalate live} vers={";".intercalate vers}"
+
 def handle (f : Fields) : String :=
   match f.get "op" with
+  | "khist" =>
+    let cfg : KmsH.KCfg := ⟨f.get "rk", f.get "sk"⟩
+    let raw := if f.get "cmds" == "" then [] else (f.get "cmds").splitOn ";"
+    let cmds := raw.filterMap parseKCmd
+    if cmds.length ≠ raw.length then "bad-op"
+    else
+      let (s, ok) := kRunObs cfg KmsH.KState.init true cmds
+      observeK (f.get "ring") s ok
   | "hist" =>
     let cfg : Cfg := ⟨if f.get "ca" == "memca" then .memca else .gcsca,
                       if f.get "km" == "localkm" then .localkm else .memkm,
